@@ -12,7 +12,7 @@ from . import _core_common as cc
 PROP = 'C03'
 ENGINE = 'coresim'
 HASH_CLASSES = 1
-RUNS = {'quick': 400, 'thorough': 15000}
+RUNS = {'quick': 600, 'thorough': 15000}
 RUN_TIMEOUT = 240
 DETERMINISM_RUNS = 8
 RULE = ("Generator of C01 with 60% of runs at maximal eviction pressure "
